@@ -104,12 +104,21 @@ fn mk_header(cmd: &[Vec<u8>], base: &[u8], k: u64) -> ReportHeader {
         stats: Some(FileStats {
             group_count: (k % 7) as usize,
             total_file_count: (k % 11) as usize,
-            total_file_size: FileLen(k * 3),
+            total_file_size: FileLen(big(k + 2, k * 3)),
             redundant_file_count: (k % 5) as usize,
-            redundant_file_size: FileLen(k),
+            redundant_file_size: FileLen(big(k + 3, k)),
             missing_file_count: (k % 3) as usize,
             missing_file_size: FileLen(k % 13),
         }),
+    }
+}
+
+/// Sizes beyond what a float (2^53) or a signed 64-bit integer holds exactly, every fourth time.
+fn big(k: u64, base: u64) -> u64 {
+    match k % 8 {
+        0 => (1u64 << 53) + 1 + base,
+        4 => u64::MAX - 7 - (base % 1000),
+        _ => base,
     }
 }
 
@@ -118,7 +127,7 @@ fn mk_groups(special: &[u8], k: u64) -> Vec<FileGroup<Path>> {
     let p = |s: &str| Path::from(s);
     vec![
         FileGroup {
-            file_len: FileLen(100 + k),
+            file_len: FileLen(big(k, 100 + k)),
             file_hash: FileHash::from(0xabcdef0123456789u128 + k as u128),
             files: vec![sp.clone(), p("/plain/one"), p("/plain/two")],
         },
